@@ -72,7 +72,8 @@ def main():
             mp = os.path.join(base, sid, "meta.json")
             meta = json.load(open(mp)) if os.path.exists(mp) else {}
             meta["recheck"] = {"at": time.strftime("%Y-%m-%dT%H:%M:%S"), "repo_head": head, "checks": res}
-            alarms = sorted(c for c, v in res.items() if isinstance(v, dict) and v.get("rc") not in (0, None))
+            alarms = sorted(c for c, v in res.items() if isinstance(v, dict) and v.get("rc") == 1 and
+                            any(l.startswith("VIOLATION") for l in v.get("lines", [])))
             if a.kind == "seeded":
                 old = set(meta.get("caught_by") or [])
                 meta["caught_by"] = sorted((old - set(res)) | set(alarms))
